@@ -102,8 +102,9 @@ def strip_sentinels(s):
 
 
 # ---------------------------------------------------------------- trees (C11)
-TREE_TXT = "ACDFGHJKLNOQSTUVWXYZ 0123456789.,;"
-TREE_TAGS = ["i", "em", "b", "p", "div", "span"]
+TREE_TXT = "ACDFGHJKLNOQSTUWYZ346890.,;"      # disjoint from every character used in tags and attributes (no blank: attributes contain one)
+TREE_TAGS = ["i", "em", "b", "p", "div", "span", "h2", "sup", "page-number", "u"]
+TREE_ATTRS = ["", "", "", ' class="x"', ' id="k7"', " data-v='1'"]
 
 
 def tree(rng, depth=0, out=None):
@@ -116,8 +117,44 @@ def tree(rng, depth=0, out=None):
             out.append("".join(rng.choice(TREE_TXT) for _ in range(rng.randint(1, 8))))
         else:
             t = rng.choice(TREE_TAGS)
-            out.append(f"<{t}>")
+            out.append(f"<{t}{rng.choice(TREE_ATTRS)}>")
             tree(rng, depth + 1, out)
             out.append(f"</{t}>")
     if top:
         return "".join(out)
+
+
+def relocate_one_insert(rng, p, s, pos):
+    """Another source for the SAME plain text with the SAME length: one run of inserted material is moved
+    to a different place. Returns (source2, pos2) or None."""
+    # runs of inserted material: gaps between consecutive plain characters
+    gaps = []
+    prev_end = 0
+    for i, q in enumerate(pos):
+        if q > prev_end:
+            gaps.append((i, prev_end, q))          # inserted s[prev_end:q] before plain char i
+        prev_end = q + 1
+    if prev_end < len(s):
+        gaps.append((len(p), prev_end, len(s)))
+    if not gaps or len(p) < 2:
+        return None
+    gi, a, b = rng.choice(gaps)
+    chunk = s[a:b]
+    rest = s[:a] + s[b:]
+    # positions of plain chars in rest
+    pos_rest = []
+    for i, q in enumerate(pos):
+        pos_rest.append(q - (b - a) if q >= b else q)
+    targets = [i for i in range(len(p) + 1) if i != gi]
+    if not targets:
+        return None
+    ti = rng.choice(targets)
+    at = pos_rest[ti] if ti < len(p) else len(rest)
+    # insert before the plain char ti, but before any material already sitting there
+    while at > 0 and (at - 1) not in set(pos_rest) and (ti == 0 or at - 1 > pos_rest[ti - 1]):
+        at -= 1
+    s2 = rest[:at] + chunk + rest[at:]
+    pos2 = [q + len(chunk) if q >= at else q for q in pos_rest]
+    if "".join(s2[q] for q in pos2) != p or len(s2) != len(s) or s2 == s:
+        return None
+    return s2, pos2
